@@ -1005,6 +1005,33 @@ def run_check(pid, tier, seed):
     if pid not in PROPS:
         print("property %s is not claimed (see MANIFEST.json not_applicable)" % pid)
         return 2
+    t0 = time.time()
+    try:
+        return run_check_inner(pid, tier, seed)
+    except common.HarnessBuildError as e:
+        # the correspondence cannot be checked at all: the property is no longer shown to hold for this tree
+        text = str(e)
+        errs = [l for l in text.splitlines() if l.startswith("error")][:12]
+        path = common.write_replay(pid, {
+            "property": pid, "broken": "correspondence",
+            "what": "the harness that drives the implementation through its public API no longer builds against the "
+                    "tree, so the correspondence between the model and the code cannot be checked (correspondence: "
+                    "%s); no failing input could be searched for" % PROPS[pid].get("required", PROPS[pid]["domain"]),
+            "compiler_errors": errs, "compiler_output_tail": text[-3000:]})
+        common.write_evidence(pid, {
+            "property_id": pid, "tier": tier, "seed": seed, "level": "proof", "wall_s": round(time.time() - t0, 1),
+            "coverage": {"evaluations": 0, "distinct_nontrivial": 0, "obligations": len(PROPS[pid].get("theorems", [])),
+                         "discharged": 0, "samples": [],
+                         "rule": "the harness did not build against the tree; nothing was explored"},
+            "violations": 1})
+        print("harness build failed against %s:" % common.REPO)
+        for l in errs:
+            print("   " + l)
+        print("VIOLATION property=%s replay=%s no-failing-input-found" % (pid, path))
+        return 1
+
+
+def run_check_inner(pid, tier, seed):
     dom = PROPS[pid]["domain"]
     if dom == "world":
         return check_world(pid, tier, seed)
